@@ -52,10 +52,16 @@ Definition opt_case (p reps : Z) (nl : netlist) (dflt : Z) (regmap : list (Z * Z
   let nl' := opt_pass p prev in
   let '(vs, st) := run nl' dflt (init_state nl' dflt regmap memmap) (map ins_of inss) in
   (* row 0: result is wfb; the input of this application satisfies the API-built
-     assumption; the premise of remove_unlistened_preserves holds of it *)
+     assumption; the decidable premise of the pass's preservation theorem
+     (wire_removal_ok / slice_removal_ok / unlistened_ok) holds of it *)
   (dump_nl nl',
    [b2z (wfb nl'); b2z (api_built prev);
-    b2z (match p with 5 => unlistened_ok prev | _ => true end)]
+    b2z (match p with
+         | 3 => wire_removal_ok prev
+         | 4 => slice_removal_ok prev
+         | 5 => unlistened_ok prev
+         | _ => true
+         end)]
    :: map (fun v => map v outs) vs).
 
 (* first-pass folding decisions: [dest; kind; payload] per net of the dump
